@@ -27,10 +27,11 @@ Record variant := mkV {
   d1 : bool;   (* startNCP falls back to the constant 100.64.0.1 *)
   d2 : bool;   (* releases are not owner-checked *)
   d3 : bool;   (* DHCPv4 expiry take-over releases the registry lease by address *)
+  d4 : bool;   (* a DISCOVER/REQUEST whose address resolution failed is answered from the DHCPv4 lease table *)
   d5 : bool    (* AAA addresses outside every pool are not recorded *)
 }.
-Definition Repaired : variant := mkV false false false false.
-Definition Defective : variant := mkV true true true true.
+Definition Repaired : variant := mkV false false false false false.
+Definition Defective : variant := mkV true true true true true.
 Inductive fam := F4 | F6 | FD.
 Definition fam_eqb (a b : fam) : bool :=
   match a, b with F4, F4 | F6, F6 | FD, FD => true | _, _ => false end.
@@ -325,7 +326,7 @@ Inductive op :=
 | IA (sid : N).
 
 Inductive pires := PiAck (a : option N) | PiNak (a : N) | PiRej | PiNoReply.
-Inductive idres := IdNil | IdErr | IdTold (a : N).
+Inductive idres := IdNil | IdErr | IdTold (a : N) | IdPanic.
 Inductive out :=
 | OSkip
 | OPa (v4 v6 : option N) (pd : option item) (p4 p6 : option N) (told : option N)
@@ -451,9 +452,49 @@ Definition id_ctx (s : sess) (vrf : N) (s4 o4 : option N) : sess :=
            (match s_prof4 s with Some _ => o4 | None => None end) None None
            (match s_prof4 s with Some _ => s4 | None => None end) None None None None None false
            None None None.
+(* The IPoE component hands the packet to the provider even when resolution failed (Resolved = nil).  The
+   provider then answers from its lease table: DISCOVER -> OFFER of the MAC's existing lease; REQUEST -> ACK
+   (and renewal) when the requested address (option 50) equals the MAC's lease.  Nothing is reserved in the
+   registry.  R6 (Repaired, flag d4): no answer. *)
+(* the provider's own pool table: one network per configured IPv4 pool (harness convention: the /16 of the
+   pool's first address).  An existing lease whose address lies in none of them makes buildOffer/buildAck
+   dereference a nil *IPPool: the handler panics (result None below). *)
+Definition prov_net_has (r : reg) (x : N) : bool :=
+  existsb (fun p => match p_geom p with GRange lo _ _ => x / 65536 =? lo / 65536 | _ => false end) (fam_pools F4 r).
+Definition unresolved (v : variant) (r : reg) (pr : prov) (s0 : sess) (isreq : bool) : option (prov * option N) :=
+  if d4 v then
+    match assoc (s_mac s0) (by_mac pr) with
+    | Some id =>
+        match lassoc id (objs pr) with
+        | Some l =>
+            if isreq then
+              match s_told s0 with
+              | Some t => if t =? l_ip l
+                          then if prov_net_has r (l_ip l)
+                               then Some (mkProv (lset id (mkLease (l_ip l) (l_mac l) (l_sid l) (l_pool l) false) (objs pr))
+                                                 (by_mac pr) (by_ip pr) (next_obj pr), Some (l_ip l))
+                               else Some (pr, None)
+                          else None
+              | None => None
+              end
+            else Some (pr, if prov_net_has r (l_ip l) then Some (l_ip l) else None)
+        | None => None
+        end
+    | None => None
+    end
+  else None.
+Definition told_sess (s : sess) (x : N) (isreq : bool) : sess :=
+  mkSess (s_id s) false (s_prof4 s) (s_prof6 s) (s_mac s) true true (s_vrf s) (s_ov4 s) (s_ov6 s) (s_ovd s)
+         (s_a4 s) (s_a6 s) (s_ad s) None None (Some x) false (if isreq then Some x else s_b4 s) (s_b6 s) (s_bd s).
+Definition id_nil (v : variant) (st : state) (r : reg) (s : sess) (isreq : bool) : list (state * out) :=
+  match unresolved v r (st_prov st) s isreq with
+  | Some (pr', Some x) => [(mkState r (put_sess (told_sess s x isreq) (st_sess st)) pr', OId isreq (IdTold x) (s_a4 s))]
+  | Some (_, None) => [(mkState r (put_sess s (st_sess st)) (st_prov st), OId isreq IdPanic (s_a4 s))]
+  | None => [(mkState r (put_sess s (st_sess st)) (st_prov st), OId isreq IdNil (s_a4 s))]
+  end.
 Definition step_id_core (v : variant) (st : state) (s0 : sess) (isreq : bool) : list (state * out) :=
   match s_prof4 s0 with
-  | None => [(mkState (st_reg st) (put_sess s0 (st_sess st)) (st_prov st), OId isreq IdNil (s_a4 s0))]
+  | None => id_nil v st (st_reg st) s0 isreq
   | Some _ =>
     bindl (acquire v F4 (s_prof4 s0) (s_ov4 s0) (s_vrf s0) (s_id s0) (oitem (s_a4 s0)) (st_reg st)) (fun c =>
       match c with (r1, a4, pk, ok) =>
@@ -461,7 +502,7 @@ Definition step_id_core (v : variant) (st : state) (s0 : sess) (isreq : bool) : 
                        (s_ov6 s0) (s_ovd s0) (oaddr a4) (s_a6 s0) (s_ad s0) None None (s_told s0) false
                        (s_b4 s0) (s_b6 s0) (s_bd s0) in
       match (if ok then oaddr a4 else None) with
-      | None => [(mkState r1 (put_sess s1 (st_sess st)) (st_prov st), OId isreq IdNil (s_a4 s1))]
+      | None => id_nil v st r1 s1 isreq
       | Some x =>
           match prov_reserve v (st_prov st) r1 x (s_mac s0) (s_id s0) pk with
           | (pr', r2, true) =>
